@@ -23,12 +23,11 @@ theorem aliasLoop_adv (fuel : Nat) : ∀ {acc : List Tok} {s s' : PS} {toks : Li
           obtain ⟨c1, s1, h1, h⟩ := h
           obtain ⟨a1, _, _⟩ := consume_post h1
           obtain ⟨n2, a2⟩ := ih h
-          have a0 : ∀ x : Option Tok, Adv s { s with cur := x } [] := fun _ => ⟨rfl, rfl, rfl⟩
-          exact ⟨_, ((a0 _).trans a1).trans a2⟩
+          exact ⟨_, ((Adv.of_flag ‹s.cur = some _›).trans a1).trans a2⟩
 
 theorem parseAlias_adv {s s' : PS} {x : String × List Tok} (h : parseAlias s = .ok (x, s')) :
     ∃ new, Adv s s' new := by
-  unfold parseAlias at h
+  unfold parseAlias parseAliasWith at h
   simp only [bind_ok, Prod.exists] at h
   obtain ⟨c1, s1, h1, h⟩ := h
   split at h
